@@ -74,7 +74,18 @@ def oracle(case, obs):
                             "is in mode %r, not the signer" % d.mode}
                 if j.get("errorcode") != 0:
                     return None
-            if meta["modes"] != "ok":
+            if meta["modes"] == "fault":
+                # a device-range status somewhere in the mode dance: the request either still ends with the
+                # device back in the signer, or it is answered with the device-error code
+                code = j.get("errorcode")
+                if r["stop"] or not (code == -905 or (code == 0 and d.mode == 3)):
+                    return {"key": "C13:uihb:neither-signer-nor-device-error",
+                            "what": "status %s at exchange %d of a uiHeartbeat: reply %r, manager stopped=%s, "
+                                    "device left in mode %r" % (hex(meta["fault"][1]), meta["fault"][0], r["raw"][:80],
+                                                                r["stop"], d.mode)}
+                if code != 0:
+                    return None
+            elif meta["modes"] != "ok":
                 # the device did not come back to the signer: must be a device error
                 if j.get("errorcode") == 0:
                     return {"key": "C13:uihb:not-back", "what": "uiHeartbeat succeeded although the "
@@ -89,16 +100,18 @@ def oracle(case, obs):
 
 
 class Reseeded:
-    """after its first answer the device is wiped and re-onboarded with another seed (other keys); the
-    manager notices a link error on the next exchange"""
+    """after its first answer the device is replaced (wiped and re-onboarded with another seed, or another
+    unit with other parameters and another blockchain state is plugged in); the manager notices a link
+    error on the next exchange"""
 
-    def __init__(self, inner, new_keys):
-        self.__dict__.update(inner=inner, new_keys=new_keys, n=0)
+    def __init__(self, inner, new_state):
+        self.__dict__.update(inner=inner, new_state=new_state, n=0)
 
     def __call__(self, apdu):
         self.__dict__["n"] += 1
         if self.n == 2:
-            self.inner.pubkeys = dict(self.new_keys)
+            for k, v in self.new_state.items():
+                setattr(self.inner, k, v)
             return ("W",)
         return self.inner(apdu)
 
@@ -111,13 +124,18 @@ def gen_cases(rng, n):
     for i in range(n):
         if i % 40 == 7:
             d = gen.random_device(rng)
+            d2 = gen.random_device(rng)
             p = gen.PATHS[(i // 40) % 6]
-            new_keys = {k: gen.rbytes(rng, 65) for k in d.pubkeys}
-            req = {"command": "getPubKey", "version": 5, "keyId": p}
-            other = {"command": "blockchainParameters", "version": 5}
+            new_state = {"pubkeys": {k: gen.rbytes(rng, 65) for k in d.pubkeys}, "params": d2.params,
+                         "hashes": d2.hashes, "difficulty": d2.difficulty, "flags": d2.flags}
+            q = ["pubkey", "params", "state"][(i // 40) % 3]
+            req = {"pubkey": {"command": "getPubKey", "version": 5, "keyId": p},
+                   "params": {"command": "blockchainParameters", "version": 5},
+                   "state": {"command": "blockchainState", "version": 5}}[q]
+            other = {"command": "blockchainParameters" if q != "params" else "blockchainState", "version": 5}
             cases.append({"mode": "v5", "kind": "ledger", "lines": [gen.line(req), gen.line(other), gen.line(req)],
-                          "connects": [True], "device": Reseeded(d, new_keys),
-                          "meta": {"q": "pubkey", "path": p, "history": "reseeded"}})
+                          "connects": [True], "device": Reseeded(d, new_state),
+                          "meta": {"q": q, "path": p, "history": "device-replaced"}})
             continue
         q = ["pubkey", "state", "params", "shb", "uihb"][i % 5]
         d = gen.random_device(rng)
@@ -141,7 +159,15 @@ def gen_cases(rng, n):
         else:
             req = {"command": "uiHeartbeat", "version": 5, "udValue": gen.rbytes(rng, 32).hex()}
             r = rng.random()
-            if r < 0.45:
+            if i % 10 == 9:
+                # a status word of the device's own error range at one of the exchanges of the mode dance
+                # (mode query, exit, mode query, heartbeat, exit, mode query)
+                d.mode, d.after_exit, meta["start"] = 3, [4, 3], 3
+                k = (i // 10) % 10
+                sw = rng.choice([0x6A99, 0x6B01, 0x69A1, 0x6D00, 0x6BFF, 0x69A0])
+                d.inject_at[k] = sw
+                meta["modes"], meta["fault"] = "fault", (k, sw)
+            elif r < 0.45:
                 d.mode, d.after_exit, meta["modes"], meta["start"] = 3, [4, 3], "ok", 3
             elif r < 0.6:
                 # the exit from the UI heartbeat lands somewhere that is neither signer nor UI heartbeat
